@@ -55,6 +55,12 @@ CLAIMS = {
  'C20': ("Cost model of every Vec in LinkageState/Dendrogram with std's growth policy (validated exactly against a counting global allocator on every run): C20_peak and C20_total (<= 512n+4096 for all n, capacities, algorithms, widths), C20_no_matrix_sized_request, C20_warm (warm _with: 0 or 1 allocation <= 32(n-1) bytes, capacities unchanged), C20_capacity_monotone, C20_call_makes_warm, C20_warm_after_use, C20_value_independent, C20_in_place (all entry points: returned matrix has the input's size; mst: identical data array), C20_buffers_match_reset (buffer table tied to the translated reset bodies: adding a buffer breaks the build). NOT verified: std's growth policy and sort scratch size (toolchain facts, re-measured every run), the allocator; chain <= n entries under float rounding (exact-count comparison would expose a chain reallocation).",
          'Lean kernel + standard axioms; counting #[global_allocator] in the harness (thread-local counters); rustc 1.95 Vec growth policy and stable-sort scratch policy are modelled, compared exactly on every case.',
          'Lean 4 theorems on an allocation cost model + exact comparison with a counting allocator + direct bound oracle'),
+ 'C15': ('Full statement proved for the model over the wrapper pieces re-translated from kodama-capi/src/lib.rs on every run: C15_len_ok (dis_len = n(n-1)/2 with NO panic in both build modes for all n < 2^32, in particular n = 0 and 1; false for the pre-fix source), C15_enum, C15_copy (field-for-field, exact widening, observations := n passed in), C15_double/C15_float/C15_full (the C result IS the Rust linkage result mapped field for field, per build mode), C15_nonnull, C15_modes, C15_null, C15_abort. Correspondence: C driver compiled against include/kodama.h (enumerators by header name) linked with libkodama.a built from the working tree in dev AND release, plain and ASan; every case compared with the real Rust linkage (oracle) and with the Lean model. A genuine defect found here (n = 0 aborted in dev builds) was repaired by fix: commit 0456afd and is recorded in known_findings.json.',
+         "Lean kernel + standard axioms; translator extract_capi.py; clang/cargo build the library and driver faithfully; mode-independence of linkage itself is C12's business.",
+         'Lean 4 theorem over translated wrapper + C-driver correspondence in two build profiles + Rust-linkage oracle'),
+ 'C16': ("Lifecycle logic proved on a handle-table model for ALL op sequences: C16_frame(_trace) (reads between create and free return exactly what create stored, whatever happens to other handles and to the caller's input), C16_use_after_free, C16_live_iff, C16_no_leak, C16_input_not_retained, C16_commute, C16_interleave, C16_schedule_independent (every interleaving gives each thread the outputs of its sequential run), C16_accessors (translated accessor bodies). Memory validity itself is NOT provable here and is OBSERVED: random create/read/clobber/free scripts over many live handles, 1-16 threads, both widths, both build profiles, executed under AddressSanitizer+LeakSanitizer (thorough: valgrind) and diffed with the model; failing scripts are shrunk.",
+         'Lean kernel + standard axioms; translator; sanitizers observe only what the instrumented C driver and the intercepted allocator see (Rust code itself is not instrumented).',
+         'Lean 4 theorems on a handle-table model + sanitizer-observed op-sequence correspondence'),
 }
 NOT_YET = "check not built yet in this round (build in progress)"
 
